@@ -33,4 +33,12 @@ def specDim (shapeDim : Option Nat) (ids : List Int) : Nat :=
   | some s => max s (mx + 1)
   | none => mx + 1
 
+/-- the weights `from_edge_array` works with: the given ones, or ones -/
+def weightsOf (rows : List (α × α)) (weights : Option (List Rat)) : List Rat :=
+  weights.getD (List.replicate rows.length 1)
+
+/-- the identifiers of the row indices / of the column indices, when the graph carries names -/
+def Graph.rowNames (g : Graph α) : Option (List α) := if g.bipartite then g.namesRow else g.names
+def Graph.colNames (g : Graph α) : Option (List α) := if g.bipartite then g.namesCol else g.names
+
 end SkNet.Ingest
